@@ -56,6 +56,7 @@ func cmdVerify(args []string) {
 	dump := fs.String("dump", "", "directory to keep failed scripts")
 	verifRoot := fs.String("verif", "/verif", "verif root")
 	croot := fs.String("croot", "", "root directory holding contract files (default: the repo)")
+	deps := fs.String("deps", "", "contract groups of imported packages used at call sites: rel/path:group,...")
 	fs.Parse(args)
 	if *croot == "" {
 		*croot = *repo
@@ -89,6 +90,20 @@ func cmdVerify(args []string) {
 	} else if err := v.LoadContracts(*croot, pkg.Pkg.Path()); err != nil {
 		fmt.Fprintln(os.Stderr, err)
 		os.Exit(2)
+	}
+	for _, d := range strings.Split(*deps, ",") {
+		if d == "" {
+			continue
+		}
+		i := strings.LastIndex(d, ":")
+		cs, err := ParseContracts(*croot + "/" + d[:i] + "/zz_verif_contracts_" + d[i+1:] + ".go")
+		if err != nil {
+			fmt.Fprintln(os.Stderr, err)
+			os.Exit(2)
+		}
+		for _, c := range cs {
+			v.contracts[contractKey(d[:i], c)] = c
+		}
 	}
 	pool := NewPool(12, os.TempDir()+"/gcv-smt", *timeout)
 	rel := strings.TrimPrefix(pkg.Pkg.Path(), "github.com/consensys/gnark-crypto/")
